@@ -27,7 +27,8 @@ def srcBlkViews : List (String × (Bool → Frag → Rd.R) × Codec × (Val → 
   ("McBlockExtra", SrcBlk.McBlockExtra, mcBlockExtra, Blk.view_McBlockExtra),
   ("ShardState", SrcBlk.ShardState, shardState, Blk.view_ShardState),
   ("AccountBlock", SrcBlk.AccountBlock, accountBlock, Blk.view_AccountBlock),
-  ("BlockExtra", SrcBlk.BlockExtra, blockExtra, Blk.view_BlockExtra)]
+  ("BlockExtra", SrcBlk.BlockExtra, blockExtra, Blk.view_BlockExtra),
+  ("Block", SrcBlk.Block, block, Blk.view_Block)]
 
 /-- `tlbsrcblk <Class> <dag> <node>` → `ok <value json> <remaining bits> <remaining refs>` | `none` :
     the regenerated reader of the class run on that cell -/
